@@ -36,6 +36,10 @@ func (c scase) args() []string {
 	return []string{kit.List(items...), st, kit.Ints(c.ts)}
 }
 
+// problems seen by runStaged outside the compared value: the caller's start-time argument must
+// not be modified, and a second profile built from the same start variable yields the same values
+var stagedProblems []string
+
 func runStaged(c scase) string {
 	parts := make([]string, len(c.stages))
 	for i, s := range c.stages {
@@ -67,6 +71,18 @@ func runStaged(c scase) string {
 			if before != total {
 				total = -1 - total // not the same before and after the queries: never equal to the model's sum
 			}
+			if st != nil {
+				if !st.Equal(time.Unix(0, *c.start)) {
+					stagedProblems = append(stagedProblems, fmt.Sprintf("start-argument-modified\tNewRateCalculator(%s, start=%d).Rate moved the caller's start variable to %d", strings.Join(parts, ","), *c.start, st.UnixNano()))
+				}
+				calc2 := staged.NewRateCalculator(stages, st)
+				for i, t := range c.ts {
+					if v := int64(calc2.Rate(time.Unix(0, t))); v != outs[i] {
+						stagedProblems = append(stagedProblems, fmt.Sprintf("second-profile-differs\ta second calculator built from the same start variable (%s, start=%d) yields %d at query %d (t=%d) where the first yielded %d", strings.Join(parts, ","), *c.start, v, i, t, outs[i]))
+						break
+					}
+				}
+			}
 			return
 		}
 		var rates, e = staged.CalculateStagedRate(0, time.Second, strings.Join(parts, ","), "none", st)
@@ -77,6 +93,19 @@ func runStaged(c scase) string {
 		total = rates.Duration
 		for _, t := range c.ts {
 			outs = append(outs, int64(rates.Rate(time.Unix(0, t))))
+		}
+		if st != nil {
+			if !st.Equal(time.Unix(0, *c.start)) {
+				stagedProblems = append(stagedProblems, fmt.Sprintf("start-argument-modified\tCalculateStagedRate(%s, start=%d) moved the caller's start variable to %d", strings.Join(parts, ","), *c.start, st.UnixNano()))
+			}
+			if rates2, e2 := staged.CalculateStagedRate(0, time.Second, strings.Join(parts, ","), "none", st); e2 == nil {
+				for i, t := range c.ts {
+					if v := int64(rates2.Rate(time.Unix(0, t))); v != outs[i] {
+						stagedProblems = append(stagedProblems, fmt.Sprintf("second-profile-differs\ta second CalculateStagedRate from the same start variable (%s, start=%d) yields %d at query %d (t=%d) where the first yielded %d", strings.Join(parts, ","), *c.start, v, i, t, outs[i]))
+						break
+					}
+				}
+			}
 		}
 	})
 	return kit.Res(crashed, err, kit.List(kit.Ints(outs), kit.I(int64(total))))
@@ -256,6 +285,13 @@ func TestC10(t *testing.T) {
 		}
 		o.Count("stages", kit.I(len(c.stages)))
 		o.Case("staged", c.args(), runStaged(c), tags...)
+		for k, p := range stagedProblems {
+			if k < 2 {
+				kv := strings.SplitN(p, "\t", 2)
+				o.Fail(kv[0], kv[1])
+			}
+		}
+		stagedProblems = nil
 	}
 	n = kit.N(600, 8000)
 	for i := 0; i < n; i++ {
